@@ -718,6 +718,7 @@ func genAnchorDoc(g *Rng) string {
 	names := []string{"p", "q", "r"}
 	var defined []string // anchors whose node has started (aliases to the open ones are self references)
 	var closed []string  // anchors whose node is complete
+	openCount := map[string]int{} // collections in progress that carry the name
 	var gen func(depth int, inMerge bool) string
 	scalar := func() string { return g.Pick([]string{"1", "x", "true", "'s'", "null"}) }
 	gen = func(depth int, inMerge bool) string {
@@ -737,13 +738,27 @@ func genAnchorDoc(g *Rng) string {
 			}
 			return anchor + scalar()
 		case k < 4 && len(defined) > 0:
-			return "*" + g.Pick(defined)
+			if g.Chance(90) {
+				// an anchor whose most recent node is complete
+				var cands []string
+				for _, c := range closed {
+					if openCount[c] == 0 {
+						cands = append(cands, c)
+					}
+				}
+				if len(cands) == 0 {
+					return scalar()
+				}
+				return "*" + g.Pick(cands)
+			}
+			return "*" + g.Pick(defined) // possibly a node that contains this alias
 		case k < 4:
 			return scalar()
 		case k < 8:
 			// anchors are registered when the node starts (self references are possible)
 			if anchor != "" {
 				defined = append(defined, strings.TrimSpace(anchor[1:]))
+				openCount[strings.TrimSpace(anchor[1:])]++
 			}
 			n := 1 + g.Intn(3)
 			var es []string
@@ -752,8 +767,13 @@ func genAnchorDoc(g *Rng) string {
 			for i := 0; i < n; i++ {
 				if !usedMerge && len(closed) > 0 && g.Chance(30) {
 					usedMerge = true
-					pool := closed
-					if g.Chance(4) {
+					var pool []string
+					for _, c := range closed {
+						if openCount[c] == 0 {
+							pool = append(pool, c)
+						}
+					}
+					if len(pool) == 0 || g.Chance(4) {
 						pool = defined // rarely an anchor that may still be open (skipped when it is)
 					}
 					switch g.Intn(4) {
@@ -775,11 +795,13 @@ func genAnchorDoc(g *Rng) string {
 			}
 			if anchor != "" {
 				closed = append(closed, strings.TrimSpace(anchor[1:]))
+				openCount[strings.TrimSpace(anchor[1:])]--
 			}
 			return anchor + "{" + strings.Join(es, ", ") + "}"
 		default:
 			if anchor != "" {
 				defined = append(defined, strings.TrimSpace(anchor[1:]))
+				openCount[strings.TrimSpace(anchor[1:])]++
 			}
 			n := g.Intn(3)
 			var es []string
@@ -788,6 +810,7 @@ func genAnchorDoc(g *Rng) string {
 			}
 			if anchor != "" {
 				closed = append(closed, strings.TrimSpace(anchor[1:]))
+				openCount[strings.TrimSpace(anchor[1:])]--
 			}
 			return anchor + "[" + strings.Join(es, ", ") + "]"
 		}
@@ -839,6 +862,79 @@ func mergesOpenAnchor(n *kyaml.Node, open map[*kyaml.Node]bool) bool {
 	return false
 }
 
+// flatMerges mirrors Yaml/Anchor.v flat_merges: no mapping that can be the source of a merge (anchored, written in
+// place as a merge value or as an item of a merge list) has a merge key itself.  Outside this domain DeAnchor's
+// result depends on the history of the nodes (an alias in value position processes its target in place, a later
+// merge of the same anchor then sees the processed node; a left-over "<<" entry is merged on the next visit):
+// the model does not follow that, generated documents outside the domain get the implementation oracles only.
+func flatMerges(n *kyaml.Node, lax bool) bool {
+	if n == nil {
+		return true
+	}
+	switch n.Kind {
+	case kyaml.DocumentNode:
+		for _, c := range n.Content {
+			if !flatMerges(c, lax) {
+				return false
+			}
+		}
+	case kyaml.SequenceNode:
+		for _, c := range n.Content {
+			if !flatMerges(c, lax) {
+				return false
+			}
+		}
+	case kyaml.MappingNode:
+		for i := 0; i+1 < len(n.Content); i += 2 {
+			isM := n.Content[i].Value == "<<"
+			if isM && (lax || n.Anchor != "") {
+				return false
+			}
+			if !flatMerges(n.Content[i+1], !lax && isM) {
+				return false
+			}
+		}
+	}
+	return true
+}
+
+// aliasesOpenAnchor: some alias in value position names a collection that encloses it (`&x {b: *x}`).  DeAnchor
+// must refuse such a document (fix 46c2be4); without the check it recurses until the Go runtime kills the
+// process, so these documents are run in a child process and only their verdict is taken.
+func aliasesOpenAnchor(n *kyaml.Node, open map[*kyaml.Node]bool) bool {
+	if n == nil {
+		return false
+	}
+	switch n.Kind {
+	case kyaml.AliasNode:
+		return open[n.Alias]
+	case kyaml.MappingNode:
+		open[n] = true
+		defer delete(open, n)
+		for i := 0; i+1 < len(n.Content); i += 2 {
+			if aliasesOpenAnchor(n.Content[i+1], open) {
+				return true
+			}
+		}
+	case kyaml.SequenceNode, kyaml.DocumentNode:
+		open[n] = true
+		defer delete(open, n)
+		for _, c := range n.Content {
+			if aliasesOpenAnchor(c, open) {
+				return true
+			}
+		}
+	}
+	return false
+}
+
+func trunc13(s string, n int) string {
+	if len(s) > n {
+		return s[:n]
+	}
+	return s
+}
+
 // deanchorProbe runs DeAnchor on one document in a child process (it may never return).
 func deanchorProbe(doc string) (finished bool, output string) {
 	cmd := exec.Command(os.Args[0], "-tier", "quick", "-seed", "1", "-out", os.TempDir(), "C13")
@@ -859,6 +955,84 @@ func deanchorProbe(doc string) (finished bool, output string) {
 		<-done
 		return false, ""
 	}
+}
+
+// deanchorOne: one document through DeAnchor — implementation oracles, and the model case when it is in the model's domain.
+func deanchorOne(r *Run, s string, fixed bool) {
+	orig, err := kyaml.Parse(s)
+	if err != nil {
+		r.Meta.Skipped++
+		return
+	}
+	// fixed documents (the witnesses of the findings among them) are always compared with the model;
+	// generated ones only inside its domain
+	inDomain := flatMerges(orig.YNode(), false)
+	ctor := "D_deanchor"
+	if !fixed {
+		ctor = "D_deanchor_flat"
+	}
+	if mergesOpenAnchor(orig.YNode(), map[*kyaml.Node]bool{}) {
+		r.Count("deanchor", "skipped: merge of an open anchor")
+		r.Meta.Skipped++
+		return
+	}
+	in, ok := anodeTerm(orig.YNode())
+	if !ok {
+		r.Meta.Skipped++
+		return
+	}
+	desc := map[string]string{"kind": "deanchor", "s": s}
+	if aliasesOpenAnchor(orig.YNode(), map[*kyaml.Node]bool{}) {
+		// a node that contains itself: verdict from a child process (model: Err)
+		fin, pout := deanchorProbe(s)
+		r.Count("deanchor", "self reference (child process)")
+		switch {
+		case !fin || !strings.Contains(pout, "PROBE err="):
+			r.Violation(OracleViolation{Law: "terminates", Class: "C13/deanchor-self-reference-not-refused", Detail: "DeAnchor does not return / dies on a node that contains itself: " + s + " " + trunc13(pout, 300), Replay: desc})
+		case strings.Contains(pout, "PROBE err=<nil>"):
+			r.Violation(OracleViolation{Law: "anchors_expanded", Class: "C13/deanchor-self-reference-not-refused", Detail: "DeAnchor accepted a node that contains itself: " + s, Replay: desc})
+		default:
+			if fixed || inDomain {
+				r.AddCase(fmt.Sprintf("(%s %s %s %s)", ctor, in, ClsErr, "(AAlias \"\")"), desc, false)
+			}
+		}
+		return
+	}
+	work := orig.Copy()
+	o := make(chan string, 1)
+	var cls string
+	go func() {
+		c, _ := protect(func() error { return work.DeAnchor() })
+		o <- c
+	}()
+	select {
+	case cls = <-o:
+	case <-time.After(20 * time.Second):
+		r.Violation(OracleViolation{Law: "terminates", Class: "C13/deanchor-diverges", Detail: "DeAnchor did not return", Replay: desc})
+		return
+	}
+	out := "(AAlias \"\")"
+	if cls == ClsOk {
+		t, ok := anodeTerm(work.YNode())
+		if !ok {
+			// the output still holds something the alias-free type cannot express
+			r.Violation(OracleViolation{Law: "anchors_expanded", Class: "C13/deanchor-output-not-plain", Detail: "DeAnchor output is not expressible without aliases", Replay: desc})
+			return
+		}
+		out = t
+		if strings.Contains(t, "(AAlias ") {
+			r.Violation(OracleViolation{Law: "anchors_expanded", Class: "C13/anchors-left-in-output", Detail: "an alias is left after DeAnchor", Replay: desc})
+		}
+	}
+	if cls == ClsPanic {
+		r.Violation(OracleViolation{Law: "no_panic", Class: "C13/deanchor-panic", Detail: "DeAnchor panicked", Replay: desc})
+	}
+	if !fixed && !inDomain {
+		r.Count("deanchor", "implementation only: a merge source has a merge key (outside the model's domain)")
+		return
+	}
+	r.AddCase(fmt.Sprintf("(%s %s %s %s)", ctor, in, cls, out), desc, cls == ClsOk && strings.Contains(s, "*"))
+	r.Count("deanchor", cls)
 }
 
 func deanchorCases(r *Run, rng *Rng, n int) {
@@ -887,63 +1061,15 @@ func deanchorCases(r *Run, rng *Rng, n int) {
 				Replay: map[string]string{"kind": "deanchor-probe", "s": doc}})
 		}
 	}()
-	one := func(s string) {
-		orig, err := kyaml.Parse(s)
-		if err != nil {
-			r.Meta.Skipped++
-			return
-		}
-		if mergesOpenAnchor(orig.YNode(), map[*kyaml.Node]bool{}) {
-			r.Count("deanchor", "skipped: merge of an open anchor")
-			r.Meta.Skipped++
-			return
-		}
-		in, ok := anodeTerm(orig.YNode())
-		if !ok {
-			r.Meta.Skipped++
-			return
-		}
-		work := orig.Copy()
-		desc := map[string]string{"kind": "deanchor", "s": s}
-		o := make(chan string, 1)
-		var cls string
-		go func() {
-			c, _ := protect(func() error { return work.DeAnchor() })
-			o <- c
-		}()
-		select {
-		case cls = <-o:
-		case <-time.After(20 * time.Second):
-			r.Violation(OracleViolation{Law: "terminates", Class: "C13/deanchor-diverges", Detail: "DeAnchor did not return", Replay: desc})
-			return
-		}
-		out := "(AAlias \"\")"
-		if cls == ClsOk {
-			t, ok := anodeTerm(work.YNode())
-			if !ok {
-				// the output still holds something the alias-free type cannot express
-				r.Violation(OracleViolation{Law: "anchors_expanded", Class: "C13/deanchor-output-not-plain", Detail: "DeAnchor output is not expressible without aliases", Replay: desc})
-				return
-			}
-			out = t
-			if strings.Contains(t, "(AAlias ") {
-				r.Violation(OracleViolation{Law: "anchors_expanded", Class: "C13/anchors-left-in-output", Detail: "an alias is left after DeAnchor", Replay: desc})
-			}
-		}
-		if cls == ClsPanic {
-			r.Violation(OracleViolation{Law: "no_panic", Class: "C13/deanchor-panic", Detail: "DeAnchor panicked", Replay: desc})
-		}
-		r.AddCase(fmt.Sprintf("(D_deanchor %s %s %s)", in, cls, out), desc, cls == ClsOk && strings.Contains(s, "*"))
-		r.Count("deanchor", cls)
-	}
+	one := func(s string, fixed bool) { deanchorOne(r, s, fixed) }
 	for _, d := range c13AnchorDocs {
-		one(d)
+		one(d, true)
 	}
 	for _, d := range c13DeanchorDocs {
-		one(d)
+		one(d, true)
 	}
 	for i := 0; i < n; i++ {
-		one(genAnchorDoc(rng.Fork()))
+		one(genAnchorDoc(rng.Fork()), false)
 	}
 }
 
@@ -2164,6 +2290,18 @@ func replayC13(path string) (bool, string, error) {
 		})
 		checkMuts(r, fs, "write_confined", "C13/write-escape", rp.Case)
 		detail = fmt.Sprintf("path annotation %q: %s %s; file system calls %v", ann, cls, msg, fs.muts)
+	case "deanchor", "deanchor-probe", "anchors":
+		s, _ := rp.Case["s"].(string)
+		fin, out := deanchorProbe(s)
+		detail = fmt.Sprintf("DeAnchor on %q in a child process: finished=%v %s", s, fin, trunc13(out, 400))
+		if kind == "deanchor" && fin {
+			if n, err := kyaml.Parse(s); err == nil && !mergesOpenAnchor(n.YNode(), map[*kyaml.Node]bool{}) {
+				deanchorOne(r, s, false)
+			}
+		}
+		if !fin {
+			r.Violation(OracleViolation{Law: "terminates", Class: "C13/deanchor-diverges", Detail: "DeAnchor did not return"})
+		}
 	default:
 		return false, "replay of case kind " + kind + " is not supported (batches are regenerated from the seed by ./check)", nil
 	}
